@@ -65,7 +65,7 @@ pub fn generate(prop: &str, tier: &str, r: &mut Rng, out: &mut Vec<String>) -> G
                 }
             }
             GenInfo {
-                rule: "enumerations: every string of <= 2 bytes after a valid header and 3-byte strings over a tier-dependent third-byte set; every (tag 0x00-0xff) x (length 0-16, 0xffff) x fill through the value decoder and as a one-attribute message (exact and off-by-one declared length); every inner length pair of the with-language syntaxes x total length 0-16; long runs of non-UTF-8 bytes (21840-65535) in every string-carrying syntax, names included (text that triples when decoded); valid multi-byte text (2-, 3- and 4-byte characters at every alignment, 300 to 65535 octets) that puts a character across every byte offset; all sequences of <= k tokens over a 16-token alphabet (k=4 quick, 5 thorough); seeded grammar-aware mutations of well-formed messages; structural bombs (10 families, sizes up to 1 MiB) in a child process. Non-trivial = distinct case lines".into(),
+                rule: "enumerations: every string of <= 2 bytes after a valid header and 3-byte strings over a tier-dependent third-byte set; every (tag 0x00-0xff) x (length 0-16, 0xffff) x fill through the value decoder and as a one-attribute message (exact and off-by-one declared length); every inner length pair of the with-language syntaxes x total length 0-16; long runs of non-UTF-8 bytes (21840-65535) in every string-carrying syntax, names included (text that triples when decoded); valid multi-byte text (2-, 3- and 4-byte characters at every alignment, 300 to 65535 octets) that puts a character across every byte offset; all sequences of <= k tokens over a 16-token alphabet (k=4 quick, 5 thorough); seeded grammar-aware mutations of well-formed messages; structural bombs (16 families, sizes up to 1 MiB) in a child process. Non-trivial = distinct case lines".into(),
                 exhaustive: false,
             }
         }
@@ -512,7 +512,7 @@ pub fn generate(prop: &str, tier: &str, r: &mut Rng, out: &mut Vec<String>) -> G
                     bytes *= 2;
                 }
             }
-            GenInfo { rule: "ten size-parameterised input families (nesting depth, set width, attributes, duplicate attributes, groups, members, unclosed begins, stray ends, maximal values, sets of collections; well-formed and malformed), n doubling from 4 KiB to 1 MiB of input (1 KiB to 2 MiB thorough) plus tiny sizes; for each the real blocking parse, the async parse of the whole input and the async parse of the input delivered in 64-byte and 536-byte pieces are measured by a counting allocator (bytes and calls per input byte against absolute ceilings, growth factor on doubling <= 2.5, fragmented delivery must not allocate more than twice the whole delivery, time per byte ceiling and time growth on doubling <= 3x once above 100 ms); consumed bytes compared with the model up to 4096 elements; non-trivial = distinct (family, n)".into(), exhaustive: false }
+            GenInfo { rule: "sixteen size-parameterised input families (nesting depth, set width, attributes, duplicate attributes, groups, members, unclosed begins, stray ends, maximal values, sets of collections, nested multi-valued members, long non-UTF-8 names and texts, a long value before many small ones, a wide set before many attributes, groups that leave collections open; well-formed and malformed), n doubling from 4 KiB to 1 MiB of input (1 KiB to 2 MiB thorough) plus tiny sizes; for each the real blocking parse, the async parse of the whole input and the async parse of the input delivered in 64-byte and 536-byte pieces are measured by a counting allocator (bytes and calls per input byte against absolute ceilings, growth factor on doubling <= 2.5, fragmented delivery must not allocate more than twice the whole delivery, time per byte ceiling and time growth on doubling <= 3x once above 100 ms); consumed bytes compared with the model up to 4096 elements; non-trivial = distinct (family, n)".into(), exhaustive: false }
         }
         "C11" => {
             let lim = Limits { max_depth: 2, boundary: false };
